@@ -45,7 +45,7 @@ def rand_pattern(rng):
             s = half + "".join(COMP[c] for c in reversed(half[: n // 2]))
         return s
     if r < 0.7:
-        return "%dx%s" % (rng.randint(1, 4), rng.choice("ATGC"))
+        return "%dx%s" % (rng.randint(1, 4), rng.choice("ATGC" if rng.random() < 0.6 else "NWSRYKMBDHV"))
     if r < 0.85:
         return "%dx%dmer" % (rng.randint(1, 3), rng.randint(1, 3))
     return rng.choice(ENZYMES) + "_site"
